@@ -35,6 +35,7 @@ def body(c):
         if cases:
             c.sample({"watermark_interleaving": [(s["act"], s["idx"], "->doneUntil=%d" % s["doneUntil"]) for s in cases[0]]})
     c.add_cases(total, keys)
+    O.gated_stage(c, "C34", 400 if q else 8000, c.seed)
     seeds = [c.seed] if q else [c.seed + i for i in range(4)]
     ot, wt, nruns = O.trace_stage(c, "C34", q, seeds)
     O.selftest_binding(c, ot)
